@@ -17,6 +17,7 @@ func (p *Parser) parseInclude(parser *Parser) (Node, error) {
 
 	// Check for optional parameters
 	var variables map[string]Node
+	var variableOrder []string // names of variables in source order
 	var ignoreMissing bool
 	var onlyContext bool
 	var sandboxed bool
@@ -82,6 +83,9 @@ func (p *Parser) parseInclude(parser *Parser) (Node, error) {
 					}
 
 					// Add to variables map
+					if _, seen := variables[varName]; !seen {
+						variableOrder = append(variableOrder, varName)
+					}
 					variables[varName] = varExpr
 
 					// If there's a comma, skip it
@@ -122,6 +126,9 @@ func (p *Parser) parseInclude(parser *Parser) (Node, error) {
 					}
 
 					// Add to variables map
+					if _, seen := variables[varName]; !seen {
+						variableOrder = append(variableOrder, varName)
+					}
 					variables[varName] = varExpr
 
 					// If there's a comma, skip it
@@ -172,6 +179,7 @@ func (p *Parser) parseInclude(parser *Parser) (Node, error) {
 	includeNode := &IncludeNode{
 		template:      templateExpr,
 		variables:     variables,
+		order:         variableOrder,
 		ignoreMissing: ignoreMissing,
 		only:          onlyContext,
 		sandboxed:     sandboxed,
